@@ -46,15 +46,15 @@ THEOREMS["C16"] = [("Flurry.Props.C16", [
 THEOREMS["C17"] = [("Flurry.Props.C17", [
     "Flurry.C17.inserting_needs_send_sync", "Flurry.C17.lookup_unbounded", "Flurry.C17.binentry_conditional"])]
 
-THEOREMS["C01"] = [("Flurry.Props.C01TableG", ["Flurry.Proto.TableG.tableG_map_linearizable", "Flurry.Proto.TableG.tableG_key_linearizable", "Flurry.Proto.TableG.tableG_key_linearizable_ext", "Flurry.Proto.TableG.tableG_lineage_reachable", "Flurry.Proto.TableG.tableG_tick_is_lineage_step", "Flurry.Proto.TableG.tableG_key_in_own_lineage", "Flurry.Proto.TableG.tableG_other_lineage_silent", "Flurry.Proto.TableG.tableG_one_lineage_per_thread", "Flurry.Proto.TableG.tableG_proj_eq", "Flurry.Proto.TableG.tableG_inv_le_resp", "Flurry.Proto.TableG.lineage_and_side", "Flurry.Proto.TableG.bins_length"]), ("Flurry.Props.C01BinG", ["Flurry.Proto.BinG.binG_linearizable_quiescent", "Flurry.Proto.BinG.binG_linearizable", "Flurry.Proto.BinG.binG_inv", "Flurry.Proto.BinG.transfer_abs_invariant", "Flurry.Proto.BinG.quiescent_tree_eq_list", "Flurry.Proto.BinG.example_runs_linearizable", "Flurry.Proto.BinG.noCheck_refutes"]), ("Flurry.Props.C01TableK", ["Flurry.Proto.TableK.tableK_map_linearizable", "Flurry.Proto.TableK.tableK_key_linearizable", "Flurry.Proto.TableK.tableK_key_linearizable_ext", "Flurry.Proto.TableK.tableK_bin_reachable", "Flurry.Proto.TableK.tableK_tick_is_bin_step", "Flurry.Proto.TableK.tableK_key_in_own_bin", "Flurry.Proto.TableK.tableK_other_bin_silent", "Flurry.Proto.TableK.tableK_one_bin_per_thread", "Flurry.Proto.TableK.tableK_proj_eq", "Flurry.Proto.TableK.tableK_inv_le_resp", "Flurry.Proto.TableK.bins_length"]), ("Flurry.Props.C01BinK", ["Flurry.Proto.BinK.binK_linearizable", "Flurry.Proto.BinK.binK_linearizable_quiescent", "Flurry.Proto.BinK.binK_inv", "Flurry.Proto.BinK.conversion_abs_invariant", "Flurry.Proto.BinK.quiescent_tree_eq_list", "Flurry.Proto.BinK.noCheck_refutes"]), ("Flurry.Props.C01BinU", ["Flurry.Proto.BinU.binu_linearizable", "Flurry.Proto.BinU.binu_linearizable_quiescent", "Flurry.Proto.BinU.binu_inv", "Flurry.Proto.BinU.tree_eq_list_unlocked", "Flurry.Proto.BinU.binu_f8order_not_linearizable", "Flurry.Proto.BinU.remove_locks_before_unlink", "Flurry.Proto.BinU.insert_locks_before_prepend"]), ("Flurry.Props.C01Local", ["Flurry.C01.locality", "Flurry.C01.locality_converse", "Flurry.C01.locality_iff", "Flurry.C01.untouched_key_unchanged"]), ("Flurry.Props.C01Source", ["Flurry.C01Source.every_bin_lock_is_rechecked", "Flurry.C01Source.lock_sites_present", "Flurry.C01Source.clear_waits_for_commit"]), ("Flurry.Props.C10", ["Flurry.C10.fill_then_forward_then_retire"]), ("Flurry.Props.C13", ["Flurry.C13.wrappers_delegate_by_name", "Flurry.C13.replace_node_keeps_its_condition"]), ("Flurry.Props.C12", ["Flurry.C12.find_searches_tree_under_read_lock", "Flurry.C12.find_writes_nothing_but_the_lock_word"]), ("Flurry.Props.C01Bin", ["Flurry.Proto.Bin.bin_linearizable", "Flurry.Proto.Bin.bin_linearizable_quiescent", "Flurry.Proto.Bin.bin_linearizable_writers", "Flurry.Proto.Bin.writers_mutex", "Flurry.Proto.Bin.writerStore_spec", "Flurry.Proto.Bin.reachable_inv"]), ("Flurry.Props.C01BinW", ["Flurry.Proto.BinW.binw_linearizable", "Flurry.Proto.BinW.binw_linearizable_quiescent", "Flurry.Proto.BinW.storeAt_eq_writerStore_reachable", "Flurry.Proto.BinW.walkers_mutex", "Flurry.Proto.BinW.binw_simulated"]), ("Flurry.Props.C01BinX", ["Flurry.Proto.BinX.binx_linearizable_quiescent", "Flurry.Proto.BinX.binx_linearizable", "Flurry.Proto.BinX.binx_linearizable_writers", "Flurry.Proto.BinX.transfer_abs_invariant", "Flurry.Proto.BinX.validated_mutex", "Flurry.Proto.BinX.resize_facts", "Flurry.Proto.BinX.chains_wellformed"]), ("Flurry.Lemmas.BinXExamples", ["Flurry.Proto.BinX.noCheck_refutes"]), ("Flurry.Lemmas.BinXCExamples", ["Flurry.Proto.BinXC.binxc_linearizable_quiescent", "Flurry.Proto.BinXC.binxc_linearizable", "Flurry.Proto.BinXC.retired_unreachable", "Flurry.Proto.BinXC.retired_dead", "Flurry.Proto.BinXC.validated_mutex", "Flurry.Proto.BinXC.new_table_after_moved", "Flurry.Proto.BinXC.noWait_retires_reachable", "Flurry.Proto.BinXC.noWait_not_linearizable"]), ("Flurry.Props.C01BinT", ["Flurry.Proto.BinT.bint_linearizable_quiescent", "Flurry.Proto.BinT.bint_linearizable", "Flurry.Proto.BinT.bint_linearizable_writers", "Flurry.Proto.BinT.bint_inv", "Flurry.Proto.BinT.remove_locks_before_unlink", "Flurry.Proto.BinT.insert_locks_before_prepend", "Flurry.Proto.BinT.bint_not_linearizable", "Flurry.Proto.BinT.not_bint_linearizable_quiescent"]), ("Flurry.Lemmas.BinWExamples", ["Flurry.Proto.BinW.noCheck_not_linearizable_doubleRemove", "Flurry.Proto.BinW.noCheck_not_linearizable_lostInsert", "Flurry.Proto.BinW.noCheck_refutes"]), ("Flurry.Props.C01", [
+THEOREMS["C01"] = [("Flurry.Props.C01TableN", ["Flurry.Proto.TableN." + n for n in "tableN_map_linearizable tableN_key_linearizable tableN_key_linearizable_ext tableN_proj_eq tableN_inv_le_resp bins_length bin_index_eq bin_index_eq_mod bin_index_split tableN_key_translation tableN_tick_is_lineage_step tableN_lineage_reachable tableN_key_in_own_lineage tableN_one_lineage_per_thread tableN_resizer_inside_one_lineage tableN_generations_do_not_overlap tableN_old_generations_forwarded tableN_transfer_abs_invariant".split()]), ("Flurry.Props.C01BinN", ["Flurry.Proto.BinN." + n for n in "binN_linearizable_quiescent binN_linearizable transfer_abs_invariant generations_do_not_overlap old_generations_forwarded next_generation_not_forwarded liveCell_one_hop follow_markers_until_live validated_mutex commit_only_when_all_forwarded chains_wellformed stale_by_two_generations stale_read_across_two_generations noCheck_refuted".split()]), ("Flurry.Props.C01BinNA", ["Flurry.Proto.BinNA.binNA_linearizable_quiescent", "Flurry.Proto.BinNA.generations_do_not_overlap", "Flurry.Proto.BinNA.old_generations_forwarded"]), ("Flurry.Props.C01TableG", ["Flurry.Proto.TableG.tableG_map_linearizable", "Flurry.Proto.TableG.tableG_key_linearizable", "Flurry.Proto.TableG.tableG_key_linearizable_ext", "Flurry.Proto.TableG.tableG_lineage_reachable", "Flurry.Proto.TableG.tableG_tick_is_lineage_step", "Flurry.Proto.TableG.tableG_key_in_own_lineage", "Flurry.Proto.TableG.tableG_other_lineage_silent", "Flurry.Proto.TableG.tableG_one_lineage_per_thread", "Flurry.Proto.TableG.tableG_proj_eq", "Flurry.Proto.TableG.tableG_inv_le_resp", "Flurry.Proto.TableG.lineage_and_side", "Flurry.Proto.TableG.bins_length"]), ("Flurry.Props.C01BinG", ["Flurry.Proto.BinG.binG_linearizable_quiescent", "Flurry.Proto.BinG.binG_linearizable", "Flurry.Proto.BinG.binG_inv", "Flurry.Proto.BinG.transfer_abs_invariant", "Flurry.Proto.BinG.quiescent_tree_eq_list", "Flurry.Proto.BinG.example_runs_linearizable", "Flurry.Proto.BinG.noCheck_refutes"]), ("Flurry.Props.C01TableK", ["Flurry.Proto.TableK.tableK_map_linearizable", "Flurry.Proto.TableK.tableK_key_linearizable", "Flurry.Proto.TableK.tableK_key_linearizable_ext", "Flurry.Proto.TableK.tableK_bin_reachable", "Flurry.Proto.TableK.tableK_tick_is_bin_step", "Flurry.Proto.TableK.tableK_key_in_own_bin", "Flurry.Proto.TableK.tableK_other_bin_silent", "Flurry.Proto.TableK.tableK_one_bin_per_thread", "Flurry.Proto.TableK.tableK_proj_eq", "Flurry.Proto.TableK.tableK_inv_le_resp", "Flurry.Proto.TableK.bins_length"]), ("Flurry.Props.C01BinK", ["Flurry.Proto.BinK.binK_linearizable", "Flurry.Proto.BinK.binK_linearizable_quiescent", "Flurry.Proto.BinK.binK_inv", "Flurry.Proto.BinK.conversion_abs_invariant", "Flurry.Proto.BinK.quiescent_tree_eq_list", "Flurry.Proto.BinK.noCheck_refutes"]), ("Flurry.Props.C01BinU", ["Flurry.Proto.BinU.binu_linearizable", "Flurry.Proto.BinU.binu_linearizable_quiescent", "Flurry.Proto.BinU.binu_inv", "Flurry.Proto.BinU.tree_eq_list_unlocked", "Flurry.Proto.BinU.binu_f8order_not_linearizable", "Flurry.Proto.BinU.remove_locks_before_unlink", "Flurry.Proto.BinU.insert_locks_before_prepend"]), ("Flurry.Props.C01Local", ["Flurry.C01.locality", "Flurry.C01.locality_converse", "Flurry.C01.locality_iff", "Flurry.C01.untouched_key_unchanged"]), ("Flurry.Props.C01Source", ["Flurry.C01Source.every_bin_lock_is_rechecked", "Flurry.C01Source.lock_sites_present", "Flurry.C01Source.clear_waits_for_commit"]), ("Flurry.Props.C10", ["Flurry.C10.fill_then_forward_then_retire"]), ("Flurry.Props.C13", ["Flurry.C13.wrappers_delegate_by_name", "Flurry.C13.replace_node_keeps_its_condition"]), ("Flurry.Props.C12", ["Flurry.C12.find_searches_tree_under_read_lock", "Flurry.C12.find_writes_nothing_but_the_lock_word"]), ("Flurry.Props.C01Bin", ["Flurry.Proto.Bin.bin_linearizable", "Flurry.Proto.Bin.bin_linearizable_quiescent", "Flurry.Proto.Bin.bin_linearizable_writers", "Flurry.Proto.Bin.writers_mutex", "Flurry.Proto.Bin.writerStore_spec", "Flurry.Proto.Bin.reachable_inv"]), ("Flurry.Props.C01BinW", ["Flurry.Proto.BinW.binw_linearizable", "Flurry.Proto.BinW.binw_linearizable_quiescent", "Flurry.Proto.BinW.storeAt_eq_writerStore_reachable", "Flurry.Proto.BinW.walkers_mutex", "Flurry.Proto.BinW.binw_simulated"]), ("Flurry.Props.C01BinX", ["Flurry.Proto.BinX.binx_linearizable_quiescent", "Flurry.Proto.BinX.binx_linearizable", "Flurry.Proto.BinX.binx_linearizable_writers", "Flurry.Proto.BinX.transfer_abs_invariant", "Flurry.Proto.BinX.validated_mutex", "Flurry.Proto.BinX.resize_facts", "Flurry.Proto.BinX.chains_wellformed"]), ("Flurry.Lemmas.BinXExamples", ["Flurry.Proto.BinX.noCheck_refutes"]), ("Flurry.Lemmas.BinXCExamples", ["Flurry.Proto.BinXC.binxc_linearizable_quiescent", "Flurry.Proto.BinXC.binxc_linearizable", "Flurry.Proto.BinXC.retired_unreachable", "Flurry.Proto.BinXC.retired_dead", "Flurry.Proto.BinXC.validated_mutex", "Flurry.Proto.BinXC.new_table_after_moved", "Flurry.Proto.BinXC.noWait_retires_reachable", "Flurry.Proto.BinXC.noWait_not_linearizable"]), ("Flurry.Props.C01BinT", ["Flurry.Proto.BinT.bint_linearizable_quiescent", "Flurry.Proto.BinT.bint_linearizable", "Flurry.Proto.BinT.bint_linearizable_writers", "Flurry.Proto.BinT.bint_inv", "Flurry.Proto.BinT.remove_locks_before_unlink", "Flurry.Proto.BinT.insert_locks_before_prepend", "Flurry.Proto.BinT.bint_not_linearizable", "Flurry.Proto.BinT.not_bint_linearizable_quiescent"]), ("Flurry.Lemmas.BinWExamples", ["Flurry.Proto.BinW.noCheck_not_linearizable_doubleRemove", "Flurry.Proto.BinW.noCheck_not_linearizable_lostInsert", "Flurry.Proto.BinW.noCheck_refutes"]), ("Flurry.Props.C01", [
     "Flurry.C01.certificate_sound", "Flurry.C01.decision_correct", "Flurry.C01.not_linearizable_iff",
     "Flurry.C01.linearization_points", "Flurry.C01.no_resurrection", "Flurry.C01.reads_pure",
     "Flurry.C01.insert_then_read", "Flurry.C01.remove_then_read", "Flurry.C01.final_read"])]
-THEOREMS["C08"] = [("Flurry.Props.C01TableG", ["Flurry.Proto.TableG.tableG_map_linearizable"]), ("Flurry.Props.C01BinG", ["Flurry.Proto.BinG.binG_linearizable_quiescent", "Flurry.Proto.BinG.noCheck_refutes"]), ("Flurry.Props.C01TableK", ["Flurry.Proto.TableK.tableK_map_linearizable"]), ("Flurry.Props.C01BinK", ["Flurry.Proto.BinK.binK_linearizable_quiescent", "Flurry.Proto.BinK.noCheck_refutes"]), ("Flurry.Props.C01BinU", ["Flurry.Proto.BinU.binu_linearizable_quiescent"]), ("Flurry.Props.C01Local", ["Flurry.C01.locality"]), ("Flurry.Props.C01Source", ["Flurry.C01Source.every_bin_lock_is_rechecked", "Flurry.C01Source.lock_sites_present", "Flurry.C01Source.clear_waits_for_commit"]), ("Flurry.Props.C13", ["Flurry.C13.wrappers_delegate_by_name"]), ("Flurry.Props.C01Bin", ["Flurry.Proto.Bin.bin_linearizable", "Flurry.Proto.Bin.bin_linearizable_quiescent", "Flurry.Proto.Bin.writers_mutex"]), ("Flurry.Props.C01BinW", ["Flurry.Proto.BinW.binw_linearizable_quiescent", "Flurry.Proto.BinW.storeAt_eq_writerStore_reachable"]), ("Flurry.Props.C01BinT", ["Flurry.Proto.BinT.bint_linearizable_quiescent"]), ("Flurry.Props.C08", [
+THEOREMS["C08"] = [("Flurry.Props.C01TableN", ["Flurry.Proto.TableN.tableN_map_linearizable"]), ("Flurry.Props.C01BinN", ["Flurry.Proto.BinN.binN_linearizable_quiescent"]), ("Flurry.Props.C08Table", ["Flurry.C08." + n for n in "counter_from_insert increments_counted binG_counter_no_lost_update tableK_counter_no_lost_update tableG_counter_no_lost_update binG_counter_instance".split()]), ("Flurry.Props.C01TableG", ["Flurry.Proto.TableG.tableG_map_linearizable"]), ("Flurry.Props.C01BinG", ["Flurry.Proto.BinG.binG_linearizable_quiescent", "Flurry.Proto.BinG.noCheck_refutes"]), ("Flurry.Props.C01TableK", ["Flurry.Proto.TableK.tableK_map_linearizable"]), ("Flurry.Props.C01BinK", ["Flurry.Proto.BinK.binK_linearizable_quiescent", "Flurry.Proto.BinK.noCheck_refutes"]), ("Flurry.Props.C01BinU", ["Flurry.Proto.BinU.binu_linearizable_quiescent"]), ("Flurry.Props.C01Local", ["Flurry.C01.locality"]), ("Flurry.Props.C01Source", ["Flurry.C01Source.every_bin_lock_is_rechecked", "Flurry.C01Source.lock_sites_present", "Flurry.C01Source.clear_waits_for_commit"]), ("Flurry.Props.C13", ["Flurry.C13.wrappers_delegate_by_name"]), ("Flurry.Props.C01Bin", ["Flurry.Proto.Bin.bin_linearizable", "Flurry.Proto.Bin.bin_linearizable_quiescent", "Flurry.Proto.Bin.writers_mutex"]), ("Flurry.Props.C01BinW", ["Flurry.Proto.BinW.binw_linearizable_quiescent", "Flurry.Proto.BinW.storeAt_eq_writerStore_reachable"]), ("Flurry.Props.C01BinT", ["Flurry.Proto.BinT.bint_linearizable_quiescent"]), ("Flurry.Props.C08", [
     "Flurry.C08.counter_no_lost_update", "Flurry.C08.absent_not_applied", "Flurry.C08.replaces_what_it_read",
     "Flurry.C08.removal_is_atomic"])]
 
-THEOREMS["C10"] = THEOREMS["C10"] + [("Flurry.Props.C05BinG", ["Flurry.Proto.BinG.quiescent_no_half_resize", "Flurry.Proto.BinG.resize_committed_or_at_work"]), ("Flurry.Props.C01TableG", ["Flurry.Proto.TableG.tableG_map_linearizable", "Flurry.Proto.TableG.tableG_lineage_reachable"]), ("Flurry.Props.C01BinG", ["Flurry.Proto.BinG.transfer_abs_invariant", "Flurry.Proto.BinG.binG_inv"]), ("Flurry.Props.C10", ["Flurry.C10." + n for n in "helper_accounting bin_migrated_at_most_once all_bins_migrated_at_publication one_finisher one_publication_per_generation generations_do_not_overlap initiation_only_from_idle quiescent_after_resize resize_completes no_stale_join joiner_holds_current_generation join_admits_current_generation help_refusal_matches_model fill_then_forward_then_retire add_count_access_order help_transfer_access_order".split()])]
+THEOREMS["C10"] = THEOREMS["C10"] + [("Flurry.Props.C01TableN", ["Flurry.Proto.TableN.tableN_map_linearizable", "Flurry.Proto.TableN.tableN_generations_do_not_overlap", "Flurry.Proto.TableN.tableN_old_generations_forwarded", "Flurry.Proto.TableN.bin_index_eq"]), ("Flurry.Props.C01BinN", ["Flurry.Proto.BinN." + n for n in "generations_do_not_overlap old_generations_forwarded next_generation_not_forwarded commit_only_when_all_forwarded transfer_abs_invariant follow_markers_until_live binN_linearizable_quiescent".split()]), ("Flurry.Props.C05BinG", ["Flurry.Proto.BinG.quiescent_no_half_resize", "Flurry.Proto.BinG.resize_committed_or_at_work"]), ("Flurry.Props.C01TableG", ["Flurry.Proto.TableG.tableG_map_linearizable", "Flurry.Proto.TableG.tableG_lineage_reachable"]), ("Flurry.Props.C01BinG", ["Flurry.Proto.BinG.transfer_abs_invariant", "Flurry.Proto.BinG.binG_inv"]), ("Flurry.Props.C10", ["Flurry.C10." + n for n in "helper_accounting bin_migrated_at_most_once all_bins_migrated_at_publication one_finisher one_publication_per_generation generations_do_not_overlap initiation_only_from_idle quiescent_after_resize resize_completes no_stale_join joiner_holds_current_generation join_admits_current_generation help_refusal_matches_model fill_then_forward_then_retire add_count_access_order help_transfer_access_order".split()])]
 
 
 THEOREMS["C15"] = [("Flurry.Props.C15", ["Flurry.C15." + n for n in "handover_hb path_hb relaxed_writes_private publication_points_release reader_loads_acquire read_lock_rmw_acqrel control_words_synchronise sites_present".split()])]
@@ -272,6 +272,10 @@ def conc_props_of(f):
     ps = list(CONC_TAGS.get(tag, ["C01"]))
     if tag == "lin" and ("cipinc" in f or "ciprm" in f):
         ps.append("C08")
+    if tag == "livelock" and re.search(r"inside `(iter|frozeniter)`", f):
+        ps.append("C07")  # "an iterator terminates"
+    if tag == "livelock" and re.search(r"inside `(get|getkv|has|len|iter) ?", f):
+        ps.append("C12")
     if tag == "abs-point":
         if re.search(r"`cip(inc|rm|panic) ", f):
             ps.append("C08")
@@ -308,6 +312,12 @@ DISCIPLINE_PROPS = ("C01", "C03", "C08", "C13")
 
 def discipline(R, prop, f):
     """a `[discipline]` line is a broken correspondence with the Bin model, not a failing input"""
+    if f.startswith("[unhooked-lock]"):
+        # the scheduler cannot follow the code: a lock is acquired where no `lock()` site of the
+        # source (hence no transition of the models) has one. Broken correspondence for every
+        # property that relies on scheduled runs; the failing input, if any, comes from the oracles.
+        R.add_broken("correspondence implementation-vs-models (lock sites): " + f[16:400])
+        return True
     if not f.startswith("[discipline]"):
         return False
     if prop in DISCIPLINE_PROPS:
